@@ -72,7 +72,12 @@ class ManifestPathEntry:
             raise ManifestSyntaxError(
                 f'Invalid escape sequence at pos {m.start()} '
                 f'of: {m.string}')
-        return chr(int(val[1:], base=16))
+        try:
+            return chr(int(val[1:], base=16))
+        except (ValueError, OverflowError):
+            raise ManifestSyntaxError(
+                f'Escape sequence out of range at pos {m.start()} '
+                f'of: {m.string}')
 
     @classmethod
     def process_path(cls, data):
